@@ -181,6 +181,15 @@ def main(tier: str) -> int:
         den = 1 if kname == "Rastrigin" else rng.choice([1, 2, 4])        # integers for Rastrigin: cos(2 pi k) = 1
         Xk = np.array([[rng.randint(-6, 6) / den for _ in range(nc)] for _ in range(nr)], dtype=np.float64).reshape(nr, nc)
         kcases.append((kname, Xk))
+    # the shifted wrapper TestShiftedFunction.__call__ over Sphere: shift tables shorter than, as long as and longer than D (and of the
+    # lengths numpy broadcasts: 1, and anything against a one-column population)
+    kshift = {}
+    for _ in range(12 if tier == "quick" else 80):
+        nr, nc = rng.randint(0, 3), rng.randint(1, 5)
+        Xk = np.array([[rng.randint(-6, 6) / 2 for _ in range(nc)] for _ in range(nr)], dtype=np.float64).reshape(nr, nc)
+        ln = rng.choice([0, 1, max(nc - 1, 0), nc, nc, nc + 2])
+        kshift[len(kcases)] = ([rng.randint(-8, 8) / 4 for _ in range(ln)], rng.randint(-40, 40) / 2)
+        kcases.append(("Shifted", Xk))
     cls_of = {"OneMax": OP.OneMax, "Sphere": OP.Sphere, "Schwefel12": OP.Schwefe1_2, "Rosenbrock": OP.Rosenbrock, "Rastrigin": OP.Rastrigin, "Griewank": OP.Griewank, "Elliptic": OP.HighConditionedElliptic, "Ackley": OP.Ackley}
 
     class _NpProxy:
@@ -195,7 +204,13 @@ def main(tier: str) -> int:
     _SN2 = "(fun s => 9 * s * s / 16) "        # sin(sqrt(s))² under the stand-ins: ((3 s) / 4)²
     _ACK = "(fun u => u / 2 + 1) (fun u => 3 * u) (fun z => 1 - z * z) "
 
-    def _real_f(kname, Xk):
+    class _ShiftedSphere(OP.TestShiftedFunction, OP.Sphere):
+        def __init__(self, o, bias):
+            OP.TestShiftedFunction.__init__(self, fbias=np.float64(bias), x_shift=np.array(o, dtype=np.float64))
+
+    def _real_f(kname, Xk, ci=None):
+        if kname == "Shifted":
+            return _ShiftedSphere(*kshift[ci])(Xk)
         if kname not in ("Ackley", "ScafferPair"):
             return cls_of[kname]().f(Xk)
         saved = OP.np
@@ -222,10 +237,13 @@ def main(tier: str) -> int:
         tbl = ", ".join("(%d, %s, %s)" % (i, _q(v), _q(np.cos(np.float64(v) / np.sqrt(np.float64(i + 1))))) for i, v in ent)
         return "(fun i a => ((([%s] : List (Nat × Rat × Rat)).find? (fun t => t.1 == i && t.2.1 == a)).map (·.2.2)).getD 0) " % tbl
     klines = ["import TFV.Generated.Src.Bench_OneMax_f", "import TFV.Generated.Src.Bench_Sphere_f", "import TFV.Generated.Src.Bench_Schwefel12_f",
-              "import TFV.Generated.Src.Bench_Rosenbrock_f", "import TFV.Generated.Src.Bench_Rastrigin_f", "import TFV.Generated.Src.Bench_Griewank_f", "import TFV.Generated.Src.Bench_Elliptic_f", "import TFV.Generated.Src.Bench_Ackley_f", "import TFV.Generated.Src.Bench_ScafferPair", "open TFV TFV.Generated.Src",
+              "import TFV.Generated.Src.Bench_Rosenbrock_f", "import TFV.Generated.Src.Bench_Rastrigin_f", "import TFV.Generated.Src.Bench_Griewank_f", "import TFV.Generated.Src.Bench_Elliptic_f", "import TFV.Generated.Src.Bench_Ackley_f", "import TFV.Generated.Src.Bench_ScafferPair", "import TFV.Generated.Src.Bench_Shifted_call", "open TFV TFV.Generated.Src",
               "def showQ : Option (List Rat) → String | none => \"none\" | some v => toString (v.map fun q => (q.num, q.den))"]
-    for kname, Xk in kcases:
+    for ci, (kname, Xk) in enumerate(kcases):
         mtx = "{ ncols := %d, rows := [%s] }" % (Xk.shape[1], ", ".join("[" + ", ".join("(%d : Rat) / %d" % (_Fr(float(v)).numerator, _Fr(float(v)).denominator) for v in row) + "]" for row in Xk))
+        if kname == "Shifted":
+            klines.append("#eval IO.println (showQ (Bench_Shifted_call Bench_Sphere_f [%s] (%s) %s))" % (", ".join(_q(v) for v in kshift[ci][0]), _q(kshift[ci][1]), mtx))
+            continue
         klines.append("#eval IO.println (showQ (Bench_%s %s%s))" % ("ScafferPair" if kname == "ScafferPair" else kname + "_f", _SN2 if kname == "ScafferPair" else "(fun _ => 1) " if kname == "Rastrigin" else _csi_table(Xk) if kname == "Griewank" else _cw_table(Xk.shape[1]) if kname == "Elliptic" else _ACK if kname == "Ackley" else "", mtx))
     kaudit = C.LEAN / "TFV" / "Audit" / "C20_np.lean"
     kaudit.parent.mkdir(parents=True, exist_ok=True)
@@ -236,15 +254,15 @@ def main(tier: str) -> int:
     chk.obligation("the translated benchmark functions evaluate (lake env lean TFV/Audit/C20_np.lean)", kpr.returncode == 0 and len(kgot) == len(kcases), (kpr.stdout + kpr.stderr)[-600:])
     if kpr.returncode == 0 and len(kgot) == len(kcases):
         import re as _re
-        for (kname, Xk), g in zip(kcases, kgot):
+        for ci, ((kname, Xk), g) in enumerate(zip(kcases, kgot)):
             try:
-                real = [float(v) for v in np.asarray(_real_f(kname, Xk), dtype=np.float64).reshape(-1)]
+                real = [float(v) for v in np.asarray(_real_f(kname, Xk, ci), dtype=np.float64).reshape(-1)]
             except Exception:
                 real = None
             vals = None if g == "none" else [int(a) / int(b) for a, b in _re.findall(r"\((-?\d+), (\d+)\)", g)]
             chk.count("np_kernel_" + kname)
             same = (real is None and vals is None) or (real is not None and vals is not None and len(real) == len(vals) and all(C.close(a, b, 1e-9, 1e-9) for a, b in zip(real, vals)))
-            (chk.agree("np_kernel:" + kname) if same else chk.disagree("np_kernel:" + kname, {"input": {"function": kname, "population": Xk.tolist()}, "impl": real, "model": g}))
+            (chk.agree("np_kernel:" + kname) if same else chk.disagree("np_kernel:" + kname, {"input": {"function": kname, "population": Xk.tolist(), "shift_and_bias": kshift.get(ci)}, "impl": real, "model": g}))
 
     try:
         outs = C.lean_driver([json.dumps(o) for o in ops])
